@@ -61,7 +61,11 @@ def rule_C07(env):
     cg = CG.CallGraph(prog)
     k_gen = prog.find("generator::Generator::generate")
     k_arb = prog.find("generator::Generator::generate_from_arbitrary")
-    reach = cg.reachable([k_gen, k_arb])
+    # configuration reaches generation through the constructors and builder methods: they are roots too
+    cfg_roots = sorted(k for k in prog.bodies if re.match(r"generator::Generator::(with_\w+|new|reset)$", k)
+                       or k.endswith("generator::Generator as std::default::Default>::default")
+                       or re.match(r"mutators::MutatorKind::(create|all_mutators)$", k))
+    reach = cg.reachable([k_gen, k_arb] + cfg_roots)
     ncalls = 0
     nhash = 0
     samples = []
@@ -98,9 +102,17 @@ def rule_C07(env):
             nhash += 1
             res.count("hash-iter")
             after = cfg.reachable_from(succ, i)
-            uses = [j for j, u in calls if j in after and j != i and (u["f"].get("name") in ("index", "index_mut", "get", "first", "last", "next", "nth", "position", "find")
+            # consumers through which the iteration order becomes observable (collecting into a sequence,
+            # element-wise processing, indexing, choosing); pure aggregations (len/count/any/all/contains/sum/min/max) are not
+            ORDER_SENSITIVE = ("index", "index_mut", "get", "first", "last", "next", "nth", "position", "find", "collect", "for_each", "extend",
+                               "fold", "into_iter", "unzip", "last_mut", "first_mut", "push", "extend_from_slice", "from_iter")
+            uses = [j for j, u in calls if j in after and j != i and (u["f"].get("name") in ORDER_SENSITIVE
                                                                       or (cfg.callee_path(u) or "").endswith(("gen_range", "choose_index")))]
-            ok_sorted = [s for s in sorts if i in dom.get(s, ()) and all(s in dom.get(j, ()) for j in uses if j in dom and j != s)]
+            # a use between the iteration and the sort is the collecting step itself (keys().copied().collect() then sort):
+            # it is harmless iff the sort dominates every *later* order-sensitive use
+            def before_sort(j, s):
+                return j in dom.get(s, ())   # j dominates the sort: it happens on the way to it
+            ok_sorted = [s for s in sorts if i in dom.get(s, ()) and all((s in dom.get(j, ())) or before_sort(j, s) for j in uses if j in dom and j != s)]
             # a pure membership/count use (no indexing at all) is order-insensitive as well
             only_agg = not uses
             if not ok_sorted and not only_agg:
